@@ -168,6 +168,18 @@ class ReadSeam:
 _world_counter = 0
 
 
+def _expand_pads(content: str) -> str:
+    """`<PAD:n>` stands for a comment block of about n characters (licence headers, generated tables): scale that does
+    not belong in a plan or replay file."""
+    import re
+
+    def pad(m):
+        line = "# Licensed under the terms of the licence; see the file LICENCE for the full text of it.\n"
+        return line * (int(m.group(1)) // len(line) + 1)
+
+    return re.sub(r"<PAD:(\d+)>\n?", pad, content)
+
+
 class World:
     """Files on tmpfs.  `search_paths` is a list of {relative path: content-or-None(dir)-or-bytes}."""
 
@@ -181,7 +193,7 @@ class World:
         links = []
         for i, files in enumerate(search_paths):
             sp = os.path.join(self.root, names[i] if names and i < len(names) else f"sp{i}")
-            os.makedirs(sp)
+            os.makedirs(sp, exist_ok=True)
             self.sp_dirs.append(sp)
             for rel, content in files.items():
                 full = os.path.join(sp, rel)
@@ -198,6 +210,8 @@ class World:
                     with open(full, "wb") as fh:
                         fh.write(content)
                 else:
+                    if "<PAD:" in content:
+                        content = _expand_pads(content)
                     if "<SP" in content or "<ROOT>" in content:
                         for j in range(len(search_paths)):
                             content = content.replace(f"<SP{j}>", os.path.join(self.root, names[j] if names and j < len(names) else f"sp{j}"))
